@@ -58,3 +58,14 @@ Theorem C18_untruncated_car : forall sha256 mh_sum (tok : Type) (unseal : str ->
   forall blobs, Forall (block_ok sha256) blobs -> car_blobs mh_sum (write_car sha256 blobs) = Ok blobs.
 Proof. exact car_blobs_written. Qed.
 Print Assumptions C18_untruncated_car.
+
+(* ... and conversely whatever prefix is accepted ends exactly at the end of a section: with the lengths of the
+   sections in hand, "is this cut refused?" is decided by Container.at_boundary (the oracle's rule for the
+   large-section cases, where the artefact itself is too big to be sent to the model) *)
+Theorem C18_accepted_prefix_ends_at_a_section : forall sha256 mh_sum (tok : Type) (unseal : str -> res tok),
+  (forall d, length (sha256 d) = 32%nat) -> (forall d, mh_sum 18 32 d = Ok (sha256 d)) ->
+  forall blobs p q m, Forall (block_ok sha256) blobs -> write_car sha256 blobs = p ++ q -> q <> [] ->
+  read_car sha256 mh_sum tok unseal p = Ok m ->
+  at_boundary (section_lengths sha256 blobs) 0 (N.of_nat (length p)) = true.
+Proof. exact accepted_prefix_ends_at_a_section. Qed.
+Print Assumptions C18_accepted_prefix_ends_at_a_section.
